@@ -337,13 +337,15 @@ func (sesh *Session) Close() error {
 	}
 	i, err := sesh.obfuscate(f, *buf, frameHeaderLength)
 	if err != nil {
+		sesh.sb.closeAll()
 		return err
 	}
 	_, err = sesh.sb.send((*buf)[:i], new(net.Conn))
+	// the connections are closed whether or not the notice could be sent
+	sesh.sb.closeAll()
 	if err != nil {
 		return err
 	}
-	sesh.sb.closeAll()
 	log.Debugf("session %v closed gracefully", sesh.id)
 	return nil
 }
